@@ -921,6 +921,9 @@ func (s *dsession) opScan() string {
 	return "ok:" + strconv.Itoa(n)
 }
 
+// dataExtOps: further op lines of the `data` executor, registered by the protocols that need them (first token -> handler).
+var dataExtOps = map[string]func(s *dsession, f []string, line int) string{}
+
 func newData(c *Ctx) func(string) string {
 	var s *dsession
 	sid := 0
@@ -998,6 +1001,9 @@ func newData(c *Ctx) func(string) string {
 			return s.opInv()
 		case "scan":
 			return s.opScan()
+		}
+		if h, ok := dataExtOps[f[0]]; ok { // op lines added by protocols that reuse this executor (datacorebit: aw, raw, binv)
+			return h(s, f, c.line)
 		}
 		return "bad-op"
 	}
